@@ -213,4 +213,6 @@ SRI_EDGE = [
     "sha1-zzzz", "sha1-azAZ", "sha1-AAAAAB==", "sha1-AAAAAQ==", "sha1-AAAAAP==", "sha1-AAAAAAE=", "sha1-AAAAAAB=", "sha1-AAAAAAC=", "sha1-AAAAAAD=", "sha1-A===", "sha1-AAAAA",
     "sha1-AAAAAA", "sha1-AAAAAAA", "sha1-AAA_", "sha1-AAA-", "sha1-AA A", "sha1-", "sha256-/+8=", "sha256-/+8A", "sha512-++8=", "sha384-9w==", "sha256-9999AA==", "sha256-0000AAA=",
     "xxh3-AAAA", "xxh3-AAA=", "sha1-2jmj7l5rSw0yVb/vlWAYkK/YBwk=", "sha1-2jmj7l5rSw0yVb/vlWAYkK/YBwl=", "sha1-====", "sha1-AAAA====", "sha1-=AAA", "sha1-AA=A",
+    "sha1-AAAAA===", "sha1-AAAAAAAAA===", "sha1-AAAAAA/=", "sha1-AAAAA/==", "sha1-AAAAAA+=", "sha1-AAAAA+==", "sha1-AAAAAA9=", "sha1-AAAAAA0=", "sha1-AAAAA0==", "sha1-AAAAAAz=",
+    "sha1-AAAAAAw=", "sha1-AAAAAg==", "sha1-AAAAAw==", "sha1-AAAAAA8=", "sha1-AAAAAA4=", "sha1-AAAAA9==",
 ]
